@@ -171,7 +171,13 @@ def order(ctx, o, ps: PassShape, pt):
                 o.refute(ps.f, fo, srcs['setlike'][0], "the dependency collection is built as a set: its iteration order (and with it "
                                                         "the order in which capacity is handed out) is not the list order")
             elif srcs['unknown']:
-                o.undecided(ps.f, fo, srcs['unknown'][0], "dependency collection built in an unrecognised idiom")
+                closure = [x for x in walk_no_nested(ps.f.node) if isinstance(x, ast.Attribute) and x.attr == 'all_' + ps.rel]
+                if closure:
+                    o.refute(ps.f, fo, closure[0], f"the tasks a task waits for are collected from `{src(closure[0])}` (the transitive closure of the links), "
+                                                   f"not from its direct {ps.rel}: the release day also waits for the ends of indirect {ps.rel}, so the "
+                                                   f"resource idles although every direct prerequisite has ended")
+                else:
+                    o.undecided(ps.f, fo, srcs['unknown'][0], "dependency collection built in an unrecognised idiom")
             else:
                 o.site(ps.f, fo, "dependencies in list order (own first, then ancestors')")
             continue
